@@ -30,6 +30,7 @@ type cgConfig struct {
 	Fallback   bool `json:"handle_fallback_route"`
 	Strict     bool `json:"strict_last_slash"`
 	Cap        int  `json:"capacity"`
+	OptStyle   int  `json:"option_style"` // how caching and its capacity are configured (4 equivalent ways)
 }
 
 var cgTables = [][]refmodel.RouteDef{
@@ -64,9 +65,35 @@ func cgOpts(c cgConfig, caching bool) []func(*rux.Router) {
 		o = append(o, rux.StrictLastSlash)
 	}
 	if caching {
-		o = append(o, rux.CachingWithNum(uint16(c.Cap)))
+		switch c.OptStyle {
+		case 1:
+			o = append(o, rux.EnableCaching, rux.MaxNumCaches(uint16(c.Cap)))
+		case 2:
+			o = append(o, rux.MaxNumCaches(uint16(c.Cap)), rux.EnableCaching)
+		default: // 0, and 3 (applied through WithOptions in two calls, see cgNew)
+			o = append(o, rux.CachingWithNum(uint16(c.Cap)))
+		}
 	}
 	return o
+}
+
+// cgBuild builds the router of a configuration; option style 3 = New(EnableCaching) then WithOptions(MaxNumCaches(n), rest...)
+func cgBuild(defs []refmodel.RouteDef, c cgConfig, caching bool, rec *hitRec) (*rux.Router, any) {
+	if caching && c.OptStyle == 3 {
+		c2 := c
+		c2.OptStyle = 0
+		rest := cgOpts(c2, false)
+		var r *rux.Router
+		pv := try(func() {
+			r = rux.New(rux.EnableCaching)
+			r.WithOptions(append(rest, rux.MaxNumCaches(uint16(c.Cap)))...)
+		})
+		if pv != nil {
+			return nil, pv
+		}
+		return registerInto(r, defs, nil, true, rec)
+	}
+	return buildRouterFull(defs, nil, true, rec, cgOpts(c, caching)...)
 }
 
 // everything a request lets its issuer observe
@@ -127,10 +154,10 @@ func cacheGraphRun(c cgConfig, reqs []cgReq, mode string, fullDepth int, st *fw.
 	if err != nil {
 		panic(err)
 	}
-	cfg := fmt.Sprintf("table [%s] notAllowed=%v fallback=%v strict=%v capacity=%d", defsString(defs), c.NotAllowed, c.Fallback, c.Strict, c.Cap)
+	cfg := fmt.Sprintf("table [%s] notAllowed=%v fallback=%v strict=%v capacity=%d(option style %d)", defsString(defs), c.NotAllowed, c.Fallback, c.Strict, c.Cap, c.OptStyle)
 	// the non-caching twin is stateless: one expected observation per request
 	recT := &hitRec{}
-	twin, pv := buildRouterFull(defs, nil, true, recT, cgOpts(c, false)...)
+	twin, pv := cgBuild(defs, c, false, recT)
 	if pv != nil {
 		add("register:panic", fmt.Sprintf("%s: registration panicked: %v", cfg, pv))
 		return viols
@@ -145,7 +172,7 @@ func cacheGraphRun(c cgConfig, reqs []cgReq, mode string, fullDepth int, st *fw.
 	}
 	build := func(h []int) (*rux.Router, *hitRec) {
 		rec := &hitRec{}
-		r, pv := buildRouterFull(defs, nil, true, rec, cgOpts(c, true)...)
+		r, pv := cgBuild(defs, c, true, rec)
 		if pv != nil {
 			panic(pv)
 		}
@@ -161,6 +188,14 @@ func cacheGraphRun(c cgConfig, reqs []cgReq, mode string, fullDepth int, st *fw.
 	st.States++
 	frontier := [][]int{{}}
 	for len(frontier) > 0 {
+		// a defect can blow the state space up (e.g. a capacity that is not enforced): stop at the first violations
+		if len(viols) >= 4 {
+			return viols
+		}
+		if len(seen) > 50000 || st.Expired() {
+			st.Cap("cache-state graph cut: more than 50000 states or budget used up")
+			return viols
+		}
 		h := frontier[0]
 		frontier = frontier[1:]
 		for qi, q := range reqs {
@@ -277,7 +312,7 @@ func cgGen(tier string, emit func(cgConfig, bool)) {
 	for t := range cgTables {
 		for o := 0; o < 8; o++ {
 			for c := 0; c <= maxCap; c++ {
-				emit(cgConfig{Table: t, NotAllowed: o&1 != 0, Fallback: o&2 != 0, Strict: o&4 != 0, Cap: c}, tier == "thorough")
+				emit(cgConfig{Table: t, NotAllowed: o&1 != 0, Fallback: o&2 != 0, Strict: o&4 != 0, Cap: c, OptStyle: (t + o + c) % 4}, tier == "thorough")
 			}
 		}
 	}
